@@ -6,6 +6,9 @@ canonical deep snapshot and `id()` graph of a component.
          | ('str', 'p'|'j'|'h', s) | ('meta', n) | ('dep', depinfo) | ('tobj', jnode) | ('tobjL', [jnode...])
   jval  := ('null',) | ('bool', b) | ('num', txt) | ('list', is_tuple, [jval...]) | ('dict', [(key, jval)...])
          | ('node', jnode)
+
+Only the API the property names is used (JSXTag, jsx, jsx_tag_create, str()/tagify()); the private serialisers are
+reached through it (see "public routes" below).
 """
 from __future__ import annotations
 
@@ -345,36 +348,7 @@ def _jsx_tagify(t: Toks) -> str:
     """four conversions of one component: tagify(), str(), tagify(), tagify(); snapshots before, after the first, after the last"""
     term = p_jnode(t)
     x = _realized(lambda: realize_j(term))
-    if canon_j(x) != term:
-        raise HarnessError(f"term does not describe the object built from it: {term!r} vs {canon_j(x)!r}")
-    keep: list = []
-    ids0 = idgraph(x, keep)
-
-    def attempt(f):
-        try:
-            return f()
-        except Exception as e:
-            return e
-
-    r1 = attempt(x.tagify)
-    a1 = canon_j(x)
-    ids1 = idgraph(x, keep)
-    s2 = attempt(lambda: str(x))
-    attempt(x.tagify)
-    r4 = attempt(x.tagify)
-    a4 = canon_j(x)
-    ids4 = idgraph(x, keep)
-    if isinstance(r1, Tag) and isinstance(s2, str):
-        c1 = canon(r1)
-        res = "ok " + zs(s2) + " " + enode(elide_body(s2, c1))
-        again = isinstance(r4, Tag) and canon(r4) == c1 and r4.get_html_string() == s2
-    elif isinstance(r1, Exception):
-        res = err_of(r1)
-        again = isinstance(s2, Exception) and isinstance(r4, Exception) and err_of(s2) == res == err_of(r4)
-    else:
-        res = "inconsistent tagify-returned-but-str-raised"
-        again = False
-    return res + " after " + ejnode(a1) + " " + ejnode(a4) + " " + eb(ids0 == ids1 == ids4) + " " + eb(again)
+    return tagify_protocol(x, term)
 
 
 @op("jsx_init")
@@ -394,27 +368,374 @@ def _jsx_init(t: Toks) -> str:
     return "ok " + ejnode(canon_j(x)) + " " + s
 
 
+# ------------------------------------------------------------------ public routes to the serialisers
+# `_render_react_js`, `_serialize_attr` and `_serialize_style_attr` are private helpers: what C20 is about is the script
+# text `str(component)` emits.  A prop value is therefore serialised through the PUBLIC API — `str(JSXTag("X", p=value))`
+# — and the part of the script that is the value is cut out; the envelope around it is learned from the real output for
+# a sentinel value (a jsx() expression is written verbatim), so no layout is assumed here.  A private helper is only
+# used where no public route exists (un-tagified trees; arbitrary indent / eol), and only when it is present under its
+# old name, accepts the old arguments and still agrees with the public route on a calibration set; otherwise the line
+# is answered `skip route-unavailable`, which the runner drops and counts — never a failing input.
+SENT = "\uf8f0\uf8f1"   # private-use characters: never generated, written verbatim inside a jsx() expression
+SKIP = "skip route-unavailable"
+_ENV: dict = {}
+
+
+class EnvelopeDiffers(Exception):
+    def __init__(self, s):
+        super().__init__("envelope")
+        self.s = s
+
+
+def _envelope(kind: str):
+    if kind not in _ENV:
+        if kind == "p":
+            s = str(JSXTag("X", p=jsx(SENT)))
+            ok = s.count(SENT) == 1
+            env = (s[: s.find(SENT)], s[s.find(SENT) + len(SENT):]) if ok else None
+        else:
+            s = str(JSXTag("X", style={SENT: jsx(SENT)}))
+            i, j = s.find('{"' + SENT), s.rfind(SENT)
+            ok = s.count(SENT) == 2 and 0 <= i < j and s[j + len(SENT): j + len(SENT) + 1] == "}"
+            env = (s[:i], s[j + len(SENT) + 1:]) if ok else None
+        _ENV[kind] = env
+    return _ENV[kind]
+
+
+def _public_value(x, kind: str) -> str:
+    """the text written for prop value `x` (under key `p`, or under `style`) by str(component)"""
+    s = str(JSXTag("X", **{"p" if kind == "p" else "style": x}))
+    env = _envelope(kind)
+    if env is None or len(s) < len(env[0]) + len(env[1]) or not s.startswith(env[0]) or not s.endswith(env[1]):
+        raise EnvelopeDiffers(s)
+    return s[len(env[0]): len(s) - len(env[1])]
+
+
+def has_tobj(n) -> bool:
+    """an un-tagified tree: str(component) expands it first, so only a direct call of the helper sees it as it is"""
+    k = n[0]
+    if k in ("tobj", "tobjL"):
+        return True
+    if k == "comp":
+        return any(val_has_tobj(v) for _, v in n[2]) or any(has_tobj(c) for c in n[3])
+    if k == "tag":
+        return any(has_tobj(c) for c in n[3])
+    return False
+
+
+def val_has_tobj(v) -> bool:
+    if v[0] == "list":
+        return any(val_has_tobj(x) for x in v[2])
+    if v[0] == "dict":
+        return any(val_has_tobj(x) for _, x in v[1])
+    return v[0] == "node" and has_tobj(v[1])
+
+
+_PRIV: dict = {}
+
+
+def _calibration_values():
+    return [None, True, 7, 'a"b', jsx("x"), [1, "a"], {"k": 2}, Tag("div", "c", id="i"), JSXTag("Y", "c", Tag("br"), q=1)]
+
+
+def _private(name: str):
+    """the private helper `htmltools._jsx.<name>` if it is still there, takes the old arguments and means what it
+    meant (agrees with the public route on the calibration set); else None"""
+    if name in _PRIV:
+        return _PRIV[name]
+    fn = None
+    try:
+        import inspect
+        cand = getattr(_jsx, name)
+        if name == "_serialize_attr":
+            inspect.signature(cand).bind(None)
+            good = all(cand(v) == _public_value(v, "p") for v in _calibration_values())
+        elif name == "_serialize_style_attr":
+            inspect.signature(cand).bind(None)
+            good = all(cand(v) == _public_value(v, "s") for v in (None, "a:b;c: d", {"k": 1, "m": "n"}, {}))
+        else:
+            inspect.signature(cand).bind(None, 0, "\n")
+            xs = [v for v in _calibration_values() if isinstance(v, (Tag, JSXTag))]
+            good = all(cand(v, 0, "\n") == _public_value(v, "p") for v in xs)
+            top = JSXTag("Y", "c", Tag("br"), q=1)
+            good = good and ("\n" + cand(top, 2, "\n") + "\n  , container);") in str(top)
+        if good:
+            fn = cand
+    except Exception:  # noqa: BLE001  (AttributeError: renamed or moved; TypeError: other signature; …)
+        fn = None
+    _PRIV[name] = fn
+    return fn
+
+
+def _answer(f) -> str:
+    try:
+        return "ok " + zs(f())
+    except EnvelopeDiffers as e:
+        # the script around the value is not what it is around the sentinel value: an answer of another shape
+        return "envelope-differs " + zs(e.s)
+
+
 @op("jsx_render")
 def _jsx_render(t: Toks) -> str:
     term = p_jnode(t)
-    x = _realized(lambda: realize_j(term))
     indent = int(t.next())
     eol = p_str(t)
-    return "ok " + zs(_jsx._render_react_js(x, indent, eol))
+    fn = _private("_render_react_js")   # no public route to an arbitrary indent / eol
+    if fn is None:
+        return SKIP
+    x = _realized(lambda: realize_j(term))
+    return "ok " + zs(fn(x, indent, eol))
+
+
+def _value_op(t: Toks, kind: str, helper: str) -> str:
+    v = p_jval(t)
+    if val_has_tobj(v):
+        fn = _private(helper)
+        if fn is None:
+            return SKIP
+        x = _realized(lambda: realize_val(v))
+        return "ok " + zs(fn(x))
+    x = _realized(lambda: realize_val(v))
+    return _answer(lambda: _public_value(x, kind))
 
 
 @op("jsx_attr")
 def _jsx_attr(t: Toks) -> str:
-    v = p_jval(t)
-    x = _realized(lambda: realize_val(v))
-    return "ok " + zs(_jsx._serialize_attr(x))
+    return _value_op(t, "p", "_serialize_attr")
 
 
 @op("jsx_style")
 def _jsx_style(t: Toks) -> str:
-    v = p_jval(t)
-    x = _realized(lambda: realize_val(v))
-    return "ok " + zs(_jsx._serialize_style_attr(x))
+    return _value_op(t, "s", "_serialize_style_attr")
+
+
+# ------------------------------------------------------------------ numbers, exactly
+def pynum_of(x):
+    """the Python number, exactly: ('i', n) | ('f', neg, mant, exp) with |x| = mant * 2**exp in canonical form (53-bit
+    significand, normalised unless subnormal) | ('inf', neg) | ('nan',)"""
+    import math
+    if isinstance(x, bool) or not isinstance(x, (int, float)):
+        raise ValueError(x)
+    if isinstance(x, int):
+        return ("i", x)
+    if x != x:
+        return ("nan",)
+    if math.isinf(x):
+        return ("inf", x < 0)
+    neg = math.copysign(1.0, x) < 0
+    if x == 0:
+        return ("f", neg, 0, -1074)
+    num, den = abs(x).as_integer_ratio()      # exact; den is a power of two
+    exp = -(den.bit_length() - 1)
+    mant = num
+    while mant >= 1 << 53:                    # (num can carry trailing zero bits when den == 1)
+        assert mant % 2 == 0
+        mant //= 2
+        exp += 1
+    while mant < 1 << 52 and exp > -1074:
+        mant *= 2
+        exp -= 1
+    assert mant < 1 << 53 and exp >= -1074 and math.ldexp(mant, exp) == abs(x)
+    return ("f", neg, mant, exp)
+
+
+def epynum(v) -> str:
+    k = v[0]
+    if k == "i":
+        return "i " + str(v[1])
+    if k == "f":
+        return "f " + eb(v[1]) + " " + str(v[2]) + " " + str(v[3])
+    if k == "inf":
+        return "inf " + eb(v[1])
+    return "nan"
+
+
+def p_pynum(t: Toks):
+    k = t.next()
+    if k == "i":
+        return ("i", int(t.next()))
+    if k == "f":
+        return ("f", p_bool(t), int(t.next()), int(t.next()))
+    if k == "inf":
+        return ("inf", p_bool(t))
+    return ("nan",)
+
+
+def num_line(txt: str) -> str:
+    return "jsx_num " + es(txt) + " " + epynum(pynum_of(parse_num(txt)))
+
+
+@op("jsx_num")
+def _jsx_num(t: Toks) -> str:
+    txt = p_str(t)
+    want = p_pynum(t)
+    x = _realized(lambda: parse_num(txt))
+    if str(x) != txt or pynum_of(x) != want:
+        raise HarnessError(f"number term {txt!r} / {want!r} does not describe {x!r}")
+    return _answer(lambda: _public_value(x, "p"))
+
+
+# ------------------------------------------------------------------ aliasing: one object at several positions
+def realize_shared(n, memo: dict):
+    """like realize_j, but structurally equal mutable sub-terms (tags, components, dependencies, metadata nodes,
+    tagifiable objects, HTML strings, list / dict prop values) are ONE object, placed at every position the term occurs"""
+    k = n[0]
+    key = ("n", repr(n))
+    if key in memo:
+        return memo[key]
+    if k == "comp":
+        props = {pk: realize_val_shared(v, memo) for pk, v in n[2]}
+        kids = [realize_shared(c, memo) for c in n[3]]
+        x = make_component(n[1], props, kids, _h(n))
+    elif k == "tag":
+        x = Tag(n[1], *[realize_shared(c, memo) for c in n[3]])
+        for pk, v in n[2]:
+            dict.__setitem__(x.attrs, pk, HTML(v[1]) if v[0] == "h" else v[1])
+    elif k == "tobj":
+        x = JTObj(realize_shared(n[1], memo))
+    elif k == "tobjL":
+        x = JTObjL([realize_shared(c, memo) for c in n[1]])
+    else:
+        x = realize_j(n)
+    memo[key] = x
+    return x
+
+
+def realize_val_shared(v, memo: dict):
+    k = v[0]
+    if k in ("list", "dict"):
+        key = ("v", repr(v))
+        if key in memo:
+            return memo[key]
+        if k == "list":
+            xs = [realize_val_shared(x, memo) for x in v[2]]
+            r = tuple(xs) if v[1] else xs
+        else:
+            r = {pk: realize_val_shared(x, memo) for pk, x in v[1]}
+        memo[key] = r
+        return r
+    if k == "node":
+        return realize_shared(v[1], memo)
+    return realize_val(v)
+
+
+def mutable_ids(x, keep: list, out: set, depth=0):
+    """ids of every mutable object reachable from `x` (component tree or tagify() result), dependencies included with
+    their item lists / dicts and head"""
+    if depth > 200 or isinstance(x, (str, bytes, int, float, bool, type(None))):
+        return out
+    if id(x) in out:
+        return out
+    keep.append(x)
+    if isinstance(x, (JSXTag, Tag)):
+        out.add(id(x))
+        for o in (x.attrs, x.children, x.children.data):
+            keep.append(o)
+            out.add(id(o))
+        if isinstance(x, JSXTag):
+            for v in x.attrs.values():
+                mutable_ids(v, keep, out, depth + 1)
+        for c in x.children:
+            mutable_ids(c, keep, out, depth + 1)
+    elif isinstance(x, TagList):
+        out.add(id(x))
+        keep.append(x.data)
+        out.add(id(x.data))
+        for c in x:
+            mutable_ids(c, keep, out, depth + 1)
+    elif isinstance(x, (JTObj, JTObjL)):
+        out.add(id(x))
+        mutable_ids(x.exp, keep, out, depth + 1)
+    elif isinstance(x, HTMLDependency):
+        out.add(id(x))
+        for a in ("script", "stylesheet", "meta"):
+            items = getattr(x, a, None)
+            if isinstance(items, list):
+                keep.append(items)
+                out.add(id(items))
+                for d in items:
+                    if isinstance(d, dict):
+                        keep.append(d)
+                        out.add(id(d))
+        for a in ("source", "head"):
+            o = getattr(x, a, None)
+            if isinstance(o, dict):
+                keep.append(o)
+                out.add(id(o))
+            elif o is not None:
+                mutable_ids(o, keep, out, depth + 1)
+    elif isinstance(x, MetadataNode):
+        out.add(id(x))
+    elif isinstance(x, (list, tuple)):
+        if isinstance(x, list):
+            out.add(id(x))
+        for v in x:
+            mutable_ids(v, keep, out, depth + 1)
+    elif isinstance(x, dict):
+        out.add(id(x))
+        for v in x.values():
+            mutable_ids(v, keep, out, depth + 1)
+    elif isinstance(x, HTML):
+        out.add(id(x))
+    return out
+
+
+def tagify_protocol(x, term, extra=None) -> str:
+    """four conversions of one component: tagify(), str(), tagify(), tagify(); snapshots before, after the first, after
+    the last; `extra(results)` may append further flags"""
+    if canon_j(x) != term:
+        raise HarnessError(f"term does not describe the object built from it: {term!r} vs {canon_j(x)!r}")
+    keep: list = []
+    ids0 = idgraph(x, keep)
+
+    def attempt(f):
+        try:
+            return f()
+        except Exception as e:
+            return e
+
+    r1 = attempt(x.tagify)
+    a1 = canon_j(x)
+    ids1 = idgraph(x, keep)
+    s2 = attempt(lambda: str(x))
+    r3 = attempt(x.tagify)
+    r4 = attempt(x.tagify)
+    a4 = canon_j(x)
+    ids4 = idgraph(x, keep)
+    if isinstance(r1, Tag) and isinstance(s2, str):
+        c1 = canon(r1)
+        res = "ok " + zs(s2) + " " + enode(elide_body(s2, c1))
+        again = isinstance(r4, Tag) and canon(r4) == c1 and r4.get_html_string() == s2
+    elif isinstance(r1, Exception):
+        res = err_of(r1)
+        again = isinstance(s2, Exception) and isinstance(r4, Exception) and err_of(s2) == res == err_of(r4)
+    else:
+        res = "inconsistent tagify-returned-but-str-raised"
+        again = False
+    out = res + " after " + ejnode(a1) + " " + ejnode(a4) + " " + eb(ids0 == ids1 == ids4) + " " + eb(again)
+    if extra is not None:
+        out += " " + extra([r1, r3, r4], keep)
+    return out
+
+
+@op("jsx_alias")
+def _jsx_alias(t: Toks) -> str:
+    """the component is built with ONE object for structurally equal mutable sub-terms (the same child / dependency /
+    attribute value object at several positions, as children, in props, in lists and dicts, as expansions); afterwards
+    every original object must be what it was (snapshot and id() graph, position by position) and no result may share
+    a mutable object with the component"""
+    term = p_jnode(t)
+    x = _realized(lambda: realize_shared(term, {}))
+
+    def fresh(results, keep):
+        mine = mutable_ids(x, keep, set())
+        for r in results:
+            if isinstance(r, Exception):
+                continue
+            if mutable_ids(r, keep, set()) & mine:
+                return eb(False)
+        return eb(True)
+    return tagify_protocol(x, term, fresh)
 
 
 @op("jsx_libfiles")
